@@ -139,6 +139,32 @@ def correspond(ctx: Ctx) -> None:
 # ----------------------------------------------------------------------------- predicates
 
 
+def indep_same(script: dict, p, q, e1, e2) -> bool:
+    """the stated match criterion written out here (never the similarity object under test): absolute — Euclidean
+    distance below the distance criterion; box-proportional — inside the ellipsoid whose semi-axes are the distance
+    criterion times the box width in each coordinate; and the energies closer than the energy criterion"""
+    p, q = np.asarray(p, dtype=float), np.asarray(q, dtype=float)
+    if p.shape != q.shape or not abs(float(e1) - float(e2)) < script["ec"]:
+        return False
+    if (script.get("trace") or {}).get("prop_sim"):
+        w = np.array([b[1] - b[0] for b in script["bounds"]], dtype=float) * script["dc"]
+        return float(np.sum(((p - q) / w) ** 2)) <= 1.0
+    return float(np.linalg.norm(p - q)) < script["dc"]
+
+
+def prop_near_tie(script: dict, rec: dict) -> bool:
+    """some pair of points the run compared sits within 1e-6 (relative) of the box-proportional criterion"""
+    pts = [(np.array(s["pos"], dtype=float), float(s["e"])) for s in [script["init"]] + script["steps"]]
+    w = np.array([b[1] - b[0] for b in script["bounds"]], dtype=float) * script["dc"]
+    for i in range(len(pts)):
+        for j in range(i):
+            v = float(np.sum(((pts[i][0] - pts[j][0]) / w) ** 2))
+            de = abs(pts[i][1] - pts[j][1])
+            if abs(v - 1.0) < 1e-6 or abs(de - script["ec"]) < 1e-9 * script["ec"]:
+                return True
+    return False
+
+
 def archive_predicate(script: dict, rec: dict) -> tuple[str, str, dict] | None:
     """C08 written from the statement on what was observed from outside: every converged
     (bonds-intact) minimiser output is represented in the network as soon as its step is over,
@@ -168,8 +194,7 @@ def archive_predicate(script: dict, rec: dict) -> tuple[str, str, dict] | None:
                     if sim.test_same(probe, c, e, ce):
                         return True
             else:
-                probe.position = pos
-                if sim.test_same(probe, c, e, ce):
+                if indep_same(script, pos, c, e, ce):
                     return True
         return False
 
@@ -303,6 +328,21 @@ def predicates(ctx: Ctx) -> None:
                         "inject": p.get("inject")}, True)
         if r:
             ctx.fail(r[0], r[1], {"trace": p, **r[2]})
+    # the box-proportional match criterion on a surface with degenerate minima: Schwefel is symmetric under exchange of
+    # its coordinates, so (a, b) and (b, a) are distinct minima of exactly equal energy whose scaled differences cancel
+    for _ in range(ctx.scale(4, 16) * (2 if deep else 1)):
+        p = {"surface": "schwefel", "dim": 2, "seed": rng.randrange(10 ** 6), "T": rng.choice([100.0, 500.0]),
+             "step": rng.choice([0.3, 0.5]), "prop": True, "prop_sim": True, "dc": 0.02, "ec": 1e-3,
+             "n_steps": rng.randrange(25, 50), "conv": 1e-6}
+        script, rec = bh.run_trace(p)
+        if rec["near_tie"] or prop_near_tie(script, rec):
+            ctx.stats.near_ties += 1
+            continue
+        r = archive_predicate(script, rec)
+        ctx.stats.case({"stream": "predicate-trace-proportional", "seed": p["seed"]}, True)
+        if r:
+            ctx.fail(r[0] + ":box-proportional-criterion", r[1], {"trace": p, **r[2]})
+            break
     metropolis_predicate(ctx, grid(ctx)[:: 1 if deep else 3])
     metropolis_frequency(ctx)
 
